@@ -1,4 +1,5 @@
 // C16: exhaustive input enumeration for Xml::parse / toString (explorer D).
+//   --mode sizes    : serialiser buffer-size boundaries (values with 0..--len escapes), round trip
 //   --mode parse    : every token string up to --len tokens (exact heap copy, ASan, time + memory watchdog, error position)
 //   --mode deep     : nesting 1/10/100/1000
 //   --mode round    : every element tree within the bounds: parse(toString(e)) is structurally equal
@@ -280,6 +281,38 @@ int main(int argc, char** argv)
         else if(!same(back, t, why, "/" + t.name)) vf::violation("C16:xml:comments", cs, "tree differs from the one parsed without comments: " + why);
         else if(i % 60 == 5 && at == 2) vf::sample(cs, 3);
       }
+    }
+  }
+  else if(mode == "sizes")
+  {
+    // buffer-size boundaries of the serialiser: values  a^p  c^n  z^t  for every character c that needs an escape (and one that does not),
+    // n = 0..--len, as attribute value and as text; the escaper sizes its output from the input length plus a fixed slack, so n walks the
+    // output across every reallocation point
+    static const char SPEC[] = {'"', '\'', '&', '<', '>', '\n', '\r', 'q'};
+    for(int c = 0; c < 8; ++c) for(int n = 0; n <= len; ++n) for(int p = 0; p < 2; ++p) for(int t = 0; t < 3; ++t) for(int where = 0; where < 2; ++where)
+    {
+      if(!sh.take()) continue;
+      std::string v(p, 'a'); v += std::string(n, SPEC[c]); v += std::string(t == 2 ? 3 : t, 'z');
+      bool blank = true; for(size_t j = 0; j < v.size(); ++j) if(!strchr(" \n\r\t", v[j])) blank = false;
+      if(where == 1 && blank) continue;
+      MNode root; root.name = "r";
+      root.attrs.push_back(std::make_pair(std::string("f"), std::string("1")));
+      if(where == 0) root.attrs.push_back(std::make_pair(std::string("v"), v));
+      root.attrs.push_back(std::make_pair(std::string("l"), std::string("2")));
+      if(where == 1) { MNode x; x.isText = true; x.text = v; root.kids.push_back(x); }
+      Xml::Element e = build(root);
+      std::string cs = vf::fmt("sizes char=%d count=%d lead=%d tail=%d where=%s", (int)SPEC[c], n, p, t == 2 ? 3 : t, where ? "text" : "attribute");
+      vf::crumb("xml.sizes", sh.token(), cs);
+      vf::watchdog_arm(20000);
+      String text = Xml::toString(e);
+      vf::Exact ex(sstr(text), true);
+      Xml::Parser ps; Xml::Element back;
+      vf::hit("size_documents"); if(n >= 2) vf::hit("distinct_nontrivial");
+      std::string why;
+      if(!ps.parse(String::fromCString(ex.p, text.length()), back))
+        vf::violation("C16:xml:roundtrip", cs, vf::fmt("serialised text is rejected: line %d column %d: %s", ps.getErrorLine(), ps.getErrorColumn(), (const char*)ps.getErrorString()));
+      else if(!same(back, root, why, "/r")) vf::violation("C16:xml:roundtrip", cs, "re-parsed tree differs: " + why);
+      else if(n == 50 && p == 1 && t == 1) vf::sample(cs, 3);
     }
   }
   vf::watchdog_disarm();
